@@ -661,6 +661,29 @@ def atoms_for(obj, conds, problems):
                             and not r.args[2].keys)):
                 cons.append(('HA', n.left.value, truth))
                 continue
+        # obj.__events__.get(EV) is None  /  obj.__events__[EV] is None: the
+        # mapping holds method names, so "is None" means "EV not mapped"
+        if isinstance(n, ast.Compare) and len(n.ops) == 1 and isinstance(
+                n.ops[0], ast.Is) and isinstance(
+                    n.comparators[0], ast.Constant) \
+                and n.comparators[0].value is None:
+            l = n.left
+            ev_ = None
+            if isinstance(l, ast.Call) and isinstance(
+                    l.func, ast.Attribute) and l.func.attr == 'get' \
+                    and norm(l.func.value) == f'{obj}.__events__' \
+                    and 1 <= len(l.args) <= 2 and isinstance(
+                        l.args[0], ast.Constant) and (
+                            len(l.args) == 1 or (isinstance(
+                                l.args[1], ast.Constant)
+                                and l.args[1].value is None)):
+                ev_ = l.args[0].value
+            elif isinstance(l, ast.Subscript) and norm(l.value) == \
+                    f'{obj}.__events__' and isinstance(l.slice, ast.Constant):
+                ev_ = l.slice.value
+            if ev_ is not None:
+                cons.append(('A', ev_, not truth))
+                continue
         # a condition about the object's handler-ness we cannot classify
         for sub in ast.walk(n):
             if isinstance(sub, ast.Attribute) and sub.attr == '__events__' \
